@@ -96,3 +96,51 @@ def sound_reach(n1: str, n2: str, c1: Const) -> bool:
     tree = SHAPES[0](n1, n2, "z", c1, 0)
     matches, matcher, root = run_matcher("_a_ = _a_ + 1", tree)
     return len(matches) == 0
+
+
+SUB_PAIRS = [
+    ("for _i_ in ___:\n    __e__", "_s_ = _s_ + _i_", 5),
+    ("for _i_ in ___:\n    __e__", "_s_ + _i_", 5),
+    ("for _i_ in _l_:\n    __e__", "___ = _l_ + ___", 5),
+    ("while _a_ > ___:\n    __e__", "_a_ = _a_ - ___", 8),
+    ("if _a_ < ___:\n    __e__", "_a_ = ___", 4),
+    ("_a_ = __e__", "_a_ + ___", 0),
+    ("_a_ = __e__", "___ * _a_", 1),
+    ("for _i_ in ___:\n    __e__", "_s_ = _s_ + _i_", 11),
+    ("for _i_ in ___:\n    __e__", "_s_ + _i_", 11),
+    ("for _i_ in _l_:\n    __e__", "_i_ + _l_", 11),
+]
+
+
+def sub_sound(n1: str, n2: str, n3: str, c1: Const) -> bool:
+    """
+    Sub-matching that inherits an earlier match (match["__e__"].find_matches(inner), use_previous=True): the pair (outer,
+    inner) is the partition; every returned map still binds each _name_ to ONE identifier and passes the witness checker.
+
+    pre: len(n1) <= 2 and len(n2) <= 2 and len(n3) <= 2 and c1 == c1
+    post: _
+    """
+    tick()
+    outer, inner, si = SUB_PAIRS[int(PART) if PART else 0]
+    tree = SHAPES[si](n1, n2, n3, c1, 1)
+    matches, matcher, root = run_matcher(outer, tree)
+    for m in matches:
+        if not check_match(m):
+            return False
+        if "__e__" not in m.exp_table:
+            continue
+        node = m["__e__"]                      # public accessor: remembers the match it came from
+        subs = node.find_matches(inner)        # use_previous defaults to True
+        for sm in subs:
+            # inherited bindings must agree with the new ones: _i_ was bound to the loop variable by the outer match
+            if "_i_" in m.symbol_table and "_i_" in sm.symbol_table:
+                if any(s_.id != n1 for s_ in sm.symbol_table["_i_"].my_list):
+                    return False
+            flag("submatch")
+            for key, syms in sm.symbol_table.items():
+                ids = [s_.id for s_ in syms.my_list]
+                if any(i != ids[0] for i in ids):
+                    return False
+            if sm.has_conflicts():
+                return False
+    return True
